@@ -496,8 +496,15 @@ func (w *World) GWFile() string {
 	e := w.eol()
 	var b strings.Builder
 	b.WriteString("SID,DATE,Level" + e)
-	for _, p := range w.GWSeries {
+	for k, p := range w.GWSeries {
+		if w.Decoys > 0 && k == 0 {
+			fmt.Fprintf(&b, "%s,%s,%s%s", "9Z1", FmtDate(p.Day, w.Cfg.DateFormat), "7", e)
+		}
 		fmt.Fprintf(&b, "%s,%s,%s%s", w.Soil.ID, FmtDate(p.Day, w.Cfg.DateFormat), fnum(p.Level), e)
+		if w.Decoys > 1 && k%3 == 1 {
+			// another soil's measurement between the lines of this soil (file kept in date order)
+			fmt.Fprintf(&b, "%s,%s,%s%s", "9Z2", FmtDate(p.Day, w.Cfg.DateFormat), "33", e)
+		}
 	}
 	return b.String()
 }
